@@ -234,8 +234,8 @@ def _run(prop, tier, seed, args, t0):
     targets = getattr(mod, 'TARGETS', [])
     # FOREIGN_TARGETS (optional): targets OWNED BY ANOTHER PROPERTY whose generated definitions this property's model
     # consumes.  They are regenerated like the own ones (so the proofs speak about the current source), but a selector
-    # that no longer finds its block is the owner's alarm: here it is recorded in the evidence, not counted as a broken tie
-    # (the last good generated file stays in place).
+    # that no longer finds its block is reported by the owner's check as well; here it is recorded in the evidence under its
+    # own key AND counts as a broken tie (the last good generated file would otherwise keep the proofs green on stale text).
     foreign = [t for t in getattr(mod, 'FOREIGN_TARGETS', []) if t not in targets]
     trans_info = {}
     if targets or foreign:
@@ -246,8 +246,11 @@ def _run(prop, tier, seed, args, t0):
         for t, info in trans_info.items():
             if not info['ok']:
                 if t in foreign:
+                    # recorded separately (the owner's check reports it too), but the tie of THIS property to the current
+                    # source is no longer shown either: the stale generated file must not keep the proofs green in silence
                     stages.setdefault('foreign_targets_broken', []).append(f'{t}: {info.get("error", "")[:200]}')
-                    print(f'FOREIGN-TARGET-BROKEN target={t} (alarm of its owner, not of {prop}) {info.get("error", "")[:200]}')
+                    print(f'FOREIGN-TARGET-BROKEN target={t} (owned by another property, consumed by {prop}) {info.get("error", "")[:200]}')
+                    broken.append(f'translation:foreign:{t}:{info.get("error", "")[:200]}')
                     continue
                 broken.append(f'translation:{t}:{info.get("error", "")[:200]}')
                 print(f'TRANSLATION-BROKEN target={t} {info.get("error", "")[:300]}')
